@@ -124,7 +124,7 @@ def run(tier, replay=None):
         seeds.append(("header-layout-%d" % i, ir.to_xml(hs[i][0])))
     ds, _ = headers.dim_schemas(with_ref_num=True)[0]
     if quick:
-        ds.msgs = ds.msgs[-6:]     # incl. the <ref>-typed blockLength / numInGroup dimensions
+        ds.msgs = ds.msgs[-14:]     # incl. the <ref>-typed blockLength / numInGroup dimensions
     seeds.append(("dimension-layouts", ir.to_xml(ds)))
     if not quick:
         for n in ("test_schema", "test_schema2"):
